@@ -527,6 +527,7 @@ ssize_t read(int fd, void *buf, size_t n)
 	struct kfd *f;
 
 	sx_sched();
+	p_maybe_deliver();
 	if (!fd_ok(fd)) {
 		sx_fail("env.read-on-closed-descriptor");
 		errno = EBADF;
@@ -603,6 +604,7 @@ ssize_t write(int fd, const void *buf, size_t n)
 	struct kfd *f;
 
 	sx_sched();
+	p_maybe_deliver();
 	if (!fd_ok(fd)) {
 		sx_fail("env.write-on-closed-descriptor");
 		errno = EBADF;
@@ -697,6 +699,7 @@ int epoll_ctl(int epfd, int op, int fd, struct epoll_event *ev)
 	int j;
 
 	sx_sched();
+	p_maybe_deliver();
 	ep = ep_of(epfd);
 	if (ep == NULL || !fd_ok(fd)) {
 		errno = EBADF;
@@ -974,6 +977,11 @@ again:
 			wi->pfds[kr.idx[i]].revents = (short)kr.rev[i];
 	}
 out:
+	if (kr.n == 0 && wi->epfd < 0) {
+		/* poll() writes every revents field, also when nothing is ready */
+		for (i = 0; i < wi->nfds; i++)
+			wi->pfds[i].revents = 0;
+	}
 	if (k_wait_return_hook)
 		k_wait_return_hook(wi, kr.n);
 	return kr.n;
